@@ -5,7 +5,7 @@
 (* are not comparable, that are sometimes a leaf and sometimes a wrapper,    *)
 (* and that have their own Is method.  Serves C08, C02, C14.                *)
 EXTENDS MCGen
-OpsV == {"GoNew", "Sentinel", "Errno", "New", "ULeaf", "UIs", "Wrap", "WithMessage", "WithStack",
+OpsV == {"Copy", "GoNew", "Sentinel", "Errno", "New", "ULeaf", "UIs", "Wrap", "WithMessage", "WithStack",
          "WithDomain", "Mark", "Handled", "GoWrap", "PkgWithMessage", "UWrap", "Join", "GoJoin",
          "WithHint", "Hop"}
 \* restricted instance: chains whose type sequence is a strict prefix of another's
